@@ -996,3 +996,8 @@ func init() {
 	mutant("malformed-frame-rejected-before-its-block-is-decoded", "hdr-must-decode", "serverConn.go", "	if malformed != nil {\n		return sc.rejectBlockFrom(strm, fr, b, strm.blockFields, malformed)\n	}\n", "	if malformed != nil {\n		return malformed\n	}\n")
 	mutant("rejected-block-start-counts-a-field-too-many", "block-remainder-decoded", "serverConn.go", "	return sc.rejectBlockFrom(strm, fr, b, strm.blockFields+1, reason)", "	return sc.rejectBlockFrom(strm, fr, b, strm.blockFields+2, reason)")
 }
+
+func init() {
+	mutant("duplicate-scheme-accepted", "pseudo-headers-once", "serverConn.go", "				if strm.pseudoScheme {\n					return sc.rejectBlock(strm, fr, b, NewResetStreamError(ProtocolError, \"duplicate :scheme pseudo-header\"))\n				}\n", "")
+	mutant("authority-not-mapped-to-host", "pseudo-headers-once", "serverConn.go", "				req.Header.SetHostBytes(v)\n				req.Header.AddBytesV(\"Host\", v)\n", "				req.Header.SetHostBytes(v)\n")
+}
